@@ -82,7 +82,13 @@ TOLERANCES = {
     'pspace_legacy_sum_prod': 'product-space x.ufuncs.sum()/prod() reduce per '
                               'part first (different association): |got-ref| '
                               '<= 4*n*eps*sum|x| (sum), 4*n*eps*|ref| (prod); '
-                              'integers, min and max exact',
+                              'integers exact, min and max the same '
+                              'number; a non-finite reference must be '
+                              'matched exactly (NaN / sign of inf) for real '
+                              'dtypes, for complex dtypes any non-finite '
+                              'result is accepted (component pattern '
+                              'depends on the association; counted as '
+                              'complex-nonfinite-association)',
 }
 ASSUMPTIONS = [
     'operands other than the element broadcast to the shape of the element '
@@ -911,7 +917,8 @@ def _cur(obj):
 INEXACT = {'arccos', 'arccosh', 'arcsin', 'arcsinh', 'arctan', 'arctan2',
            'arctanh', 'cos', 'cosh', 'exp', 'exp2', 'expm1', 'log', 'log10',
            'log1p', 'log2', 'logaddexp', 'logaddexp2', 'power', 'float_power',
-           'sin', 'sinh', 'tan', 'tanh', 'cbrt', 'hypot'}
+           'sin', 'sinh', 'tan', 'tanh', 'cbrt', 'hypot',
+           'absolute'}      # |z| of complex input is a hypot
 ULP_FALLBACK = 16
 _MODE = {'lenient': False, 'tolerated': 0, 'unaligned': 0, 'unaligned_na': 0,
          'special': 0}
@@ -1791,6 +1798,7 @@ def _run_legacy_red(desc):
         if g.dtype.kind != r.dtype.kind:
             raise Violation(sig('dtype', 'scalar'), '{} vs {}'.format(
                 g.dtype, r.dtype))
+        assoc = 0
         with np.errstate(all='ignore'):
             gv, rv = g.astype(r.dtype)[()], r[()]
             if r.dtype.kind not in 'fc':
@@ -1798,9 +1806,19 @@ def _run_legacy_red(desc):
             elif not np.isfinite(rv):
                 # NaN / infinities propagate whatever the association
                 # (complex: component patterns may differ)
-                ok = _same(gv, rv) if r.dtype.kind == 'f' else bool(
-                    np.isnan(gv) == np.isnan(rv) and
-                    np.isinf(gv) == np.isinf(rv))
+                if r.dtype.kind == 'f' or _same(gv, rv):
+                    ok = _same(gv, rv)
+                elif red in ('sum', 'prod'):
+                    # complex: which component ends up inf and which NaN
+                    # depends on the association of the complex operations
+                    # ((inf+nanj) vs (nan+nanj)): any non-finite value
+                    ok = not np.isfinite(gv)
+                    assoc = 1
+                else:
+                    # complex min / max hand back one of the NaN-holding
+                    # entries (which one depends on the association)
+                    ok = bool(gv == rv or (np.isnan(gv) and np.isnan(rv)))
+                    assoc = 1
             elif red in ('sum', 'prod'):
                 n = flat.size
                 eps = np.finfo(r.dtype).eps
@@ -1813,10 +1831,23 @@ def _run_legacy_red(desc):
                 # min / max: the same number (which of +0.0 / -0.0 wins
                 # depends on the association)
                 ok = bool(gv == rv)
+            if not ok and red == 'prod' and r.dtype.kind in 'fc':
+                # a product whose magnitude can leave the range of the dtype
+                # overflows (and then meets a zero: NaN) or not depending on
+                # the association - nothing to compare
+                mags = np.abs(flat[np.isfinite(flat) & (flat != 0)]).astype(
+                    np.longdouble)
+                big = np.prod(np.maximum(mags, 1))
+                small = np.prod(np.minimum(mags, 1))
+                if not (big <= np.finfo(r.dtype).max and
+                        small >= np.finfo(r.dtype).tiny):
+                    return Outcome('ok', strata=strata, nontrivial=False,
+                                   notes={'prod-out-of-range-association': 1})
         if not ok:
             raise Violation(sig('value', 'scalar'),
                             'got {!r} numpy {!r}'.format(got, ref))
-        return Outcome('ok', strata=strata)
+        return Outcome('ok', strata=strata, notes={
+            'complex-nonfinite-association': 1} if assoc else None)
 
     a = _ref_array(sd, desc['x'])
     x_op = _Operand(x, a, True, space)
